@@ -6,6 +6,9 @@
 (*                                                                         *)
 (*   {"ev":"cfg","cfg":{...}}           the abstract configuration the     *)
 (*                                      following requests were sent to    *)
+(*                                      (a new server, or the SAME live    *)
+(*                                      server reconfigured: the verdict   *)
+(*                                      depends on the current one only)   *)
 (*   {"ev":"q","req":{...},"ans":[...],"obs":{why,c,a,calls}}              *)
 (*                                      one request, the (abstract) answer *)
 (*                                      section the mock upstream would    *)
@@ -31,9 +34,12 @@ ObsOf(o) == [why |-> o.why, c |-> o.c, a |-> SeqRange(o.a), calls |-> o.calls]
 
 NoCfg == [rules |-> {}, mode |-> "default", prot |-> "on", filt |-> TRUE, svc |-> "none",
           client |-> [known |-> FALSE, useOwn |-> FALSE, filt |-> TRUE, svc |-> "inherit"],
-          aaaaOff |-> FALSE]
+          aaaaOff |-> FALSE, cache |-> FALSE]
 
-Ok(i) == ObsOf(Trace[i].obs) \in Verdict(cur, Trace[i].req, Trace[i].ans)
+\* "rep" marks a question this server was asked before (possibly under an
+\* earlier configuration of the same trace section).
+Ok(i) == ObsOf(Trace[i].obs) \in (IF Trace[i].rep THEN VerdictRepeat(cur, Trace[i].req, Trace[i].ans)
+                                  ELSE Verdict(cur, Trace[i].req, Trace[i].ans))
 
 Init == l = 1 /\ cur = NoCfg /\ bad = {}
 Next == /\ l <= Len(Trace)
